@@ -15,6 +15,10 @@ CHECKS = {
          "bounded-exhaustive enumeration of atom sequences and edit balls on the real lexers with tiling/aliasing/re-lex oracles after every Next",
          "For every enumerated input and every token position: the token is input[offset-len:offset] by pointer identity and equals a pristine copy modulo the two documented rewrites; tokens strictly ordered, non-overlapping, non-empty; css/js tokens tile the consumed bytes; html/xml gaps are whitespace before a tag closer; Text/AttrKey/AttrVal lie inside the token; append(token) cannot write into the input; each css/js token re-lexes to itself; the set of bytes altered in place is exactly the documented one. Exhaustive within the bounds.",
          "Bounds per alphabet in evidence (css 4 atoms full alphabet, html/js 3-4, xml 4; one more in thorough); JS restricted to valid UTF-8 as the property says; template middle/tail re-lexed after the prefix `${."),
+ "C06": ("model_checking",
+         "exhaustive enumeration of token-spelling pairs/triples x separators x template/brace wrappers and of all short strings, each lexed by the real js.Lexer and by an independent ECMA-262 lexical-grammar reference lexer, traces compared token by token",
+         "A vocabulary of ~250 spellings (every reserved/contextual word, every punctuator, identifiers with Unicode/escapes, private names, all numeric literal forms, strings with all escapes and line continuations, templates with nesting, every comment, whitespace and line-terminator kind, regexp literals) is combined exhaustively: all ordered pairs x 7 separators, pairs inside template/brace wrappers (nesting depth up to 3), all triples over a 60-spelling core x separators; plus all strings up to 3 atoms over a 107-atom alphabet (4-5 over the core) and edit balls around the JS seeds. Where the reference lexer accepts the input, js.Lexer must return exactly its (type,text) list, with RegExp() called where the generator placed a regexp literal; canonical spelling of every keyword/operator/punctuator token and the Keywords table are checked entry by entry.",
+         "Reference = hand-written longest-match lexer for ECMA-262 section 12 + Annex B comments; whitespace runs and line-terminator runs are single tokens as in the library. Not compared: inputs outside the lexical grammar, '-->' after a delimited comment on the same line (library behaviour pinned by its own tests), unbalanced parentheses inside template substitutions."),
  "C07": ("model_checking",
          "exhaustive enumeration of token-spelling pairs/triples x separators and of all short byte strings, each lexed by the real css.Lexer and by a transcription of the CSS Syntax 3 tokenizer (reference model), traces compared token by token",
          "A vocabulary of ~170 spellings covering every token class and look-ahead of CSS Syntax 3 is combined exhaustively (all singles, all ordered pairs x 4 separators, all triples over a 46-spelling core x separators) and every byte string up to 4 atoms over a 61-atom alphabet (5 over the core) is enumerated; the real lexer's (type,text) list must equal the reference tokenizer's wherever the reference reports neither a spec parse error nor a documented ambiguity; malformed inputs are compared up to the malformed construct and for the BadString / one-BadURL-to-the-matching-paren clauses. IsIdent/IsURLUnquoted are compared with the library's own lexer on every enumerated string, incl. that the argument's array is untouched.",
